@@ -22,6 +22,7 @@ import (
 	"reflect"
 	"runtime"
 	"sort"
+	"sync"
 	"syscall"
 	"time"
 	"unsafe"
@@ -122,6 +123,7 @@ var st struct {
 	seq           bool
 	checkGoid     bool // verify the caller's goroutine identity at every yield
 	libGoroutines bool // the instrumented library contains go statements
+	helpers       int  // blocking sends handed to helper goroutines, not yet delivered
 	goids         [MaxTasks]uint64
 	seqGoid       uint64
 	foreign       uint64
@@ -246,6 +248,8 @@ func begin(cfg Config, n int) {
 	st.noPreempt = 0
 	st.stuck = 0
 	st.aborted = false
+	st.helpers = 0
+	condReset()
 	st.seq = false
 	st.res = Result{PerTask: make([]uint64, n), HotYields: make([]uint64, n)}
 	for i := 0; i < MaxTasks; i++ {
@@ -519,8 +523,17 @@ func blockedYield() bool {
 	t := st.cur
 	st.stuck++
 	if st.stuck > 2*st.ntasks+2 {
-		st.res.Deadlock = true
-		return false
+		if st.libGoroutines || st.helpers > 0 {
+			// somebody outside the scheduler (a goroutine of the library, a helper
+			// performing a blocking send) may still make progress: no verdict here;
+			// give the OS scheduler a chance and keep polling.  A real deadlock ends
+			// in the wall-clock watchdog.
+			st.stuck = 0
+			runtime.Gosched()
+		} else {
+			st.res.Deadlock = true
+			return false
+		}
 	}
 	next := -1
 	for i := 1; i < st.ntasks; i++ {
@@ -531,7 +544,12 @@ func blockedYield() bool {
 		}
 	}
 	if next < 0 {
-		st.res.Deadlock = true
+		// nobody else to run: a deadlock, unless somebody outside the scheduler
+		// (library goroutine, send helper) can still unblock us - then the caller
+		// simply blocks for real
+		if !st.libGoroutines && st.helpers == 0 {
+			st.res.Deadlock = true
+		}
 		return false
 	}
 	st.res.BlockedSw++
@@ -617,29 +635,49 @@ func Recv2[T any](ch <-chan T) (T, bool) {
 	}
 }
 
-// Send is the shim for a blocking send statement `ch <- v`.
+// Send is the shim for a blocking send statement `ch <- v`.  Two tasks that both
+// merely poll an unbuffered channel would never meet, so a send that cannot
+// complete at once is handed to a helper goroutine that really blocks in it; the
+// task counts as blocked until the helper reports delivery.
 func Send[T any](ch chan<- T, v T) {
 	if !isActive() {
 		ch <- v
 		return
 	}
+	select {
+	case ch <- v:
+		progress()
+		return
+	default:
+	}
+	done := make(chan struct{})
+	helperDelta(1)
+	go func() {
+		defer close(done)
+		ch <- v
+	}()
 	for {
 		select {
-		case ch <- v:
+		case <-done:
+			helperDelta(-1)
 			progress()
 			return
 		default:
 		}
 		if !blockedYield() {
-			markSelfDeadlockChan()
 			if deadlocked() {
 				DeadlockHook()
 			}
-			ch <- v
+			<-done
+			helperDelta(-1)
 			return
 		}
 	}
 }
+
+//go:norace
+//go:noinline
+func helperDelta(d int) { st.helpers += d }
 
 //go:norace
 //go:noinline
@@ -648,6 +686,119 @@ func markSelfDeadlockChan() {
 	// by the runtime (timers) or by a goroutine of the library, so nothing is
 	// concluded here; the caller blocks for real and the wall-clock watchdog is the
 	// backstop.
+}
+
+// ---------------------------------------------------------------------------
+// sync.Cond shim: faithful (no spurious wake-ups).  A task that waits registers
+// itself, releases the lock and hands the token on until somebody signals.
+
+// No Go maps here: the runtime's map code reports its accesses to the race
+// detector whoever the caller is, and this state is touched by several tasks.
+type condState struct {
+	c         *sync.Cond
+	waiting   [MaxTasks]int // task ids in arrival order
+	nwaiting  int
+	signalled [MaxTasks]bool // woken, not yet resumed
+}
+
+var conds []*condState
+
+//go:norace
+//go:noinline
+func condFind(c *sync.Cond, create bool) *condState {
+	for _, cs := range conds {
+		if cs.c == c {
+			return cs
+		}
+	}
+	if !create {
+		return nil
+	}
+	cs := &condState{c: c}
+	conds = append(conds, cs)
+	return cs
+}
+
+//go:norace
+//go:noinline
+func condRegister(c *sync.Cond) (int, bool) {
+	if !st.active || st.ntasks < 2 || st.seq || (st.checkGoid && foreignCaller()) {
+		return 0, false
+	}
+	cs := condFind(c, true)
+	if cs.nwaiting < MaxTasks {
+		cs.waiting[cs.nwaiting] = st.cur
+		cs.nwaiting++
+	}
+	return st.cur, true
+}
+
+//go:norace
+//go:noinline
+func condWoken(c *sync.Cond, t int) bool {
+	cs := condFind(c, false)
+	if cs != nil && cs.signalled[t] {
+		cs.signalled[t] = false
+		return true
+	}
+	return false
+}
+
+//go:norace
+//go:noinline
+func condWake(c *sync.Cond, all bool) {
+	cs := condFind(c, false)
+	if cs == nil {
+		return
+	}
+	for cs.nwaiting > 0 {
+		cs.signalled[cs.waiting[0]] = true
+		copy(cs.waiting[:], cs.waiting[1:cs.nwaiting])
+		cs.nwaiting--
+		st.stuck = 0
+		if !all {
+			return
+		}
+	}
+}
+
+//go:norace
+//go:noinline
+func condReset() { conds = nil }
+
+// CondWait replaces c.Wait().
+func CondWait(c *sync.Cond) {
+	t, ok := condRegister(c)
+	if !ok {
+		c.Wait()
+		return
+	}
+	c.L.Unlock()
+	for !condWoken(c, t) {
+		if !blockedYield() {
+			if deadlocked() {
+				DeadlockHook()
+			}
+			break
+		}
+	}
+	if tl, ok := c.L.(interface{ TryLock() bool }); ok {
+		Lock(tl.TryLock, c.L.Lock)
+	} else {
+		c.L.Lock()
+	}
+}
+
+// CondSignal replaces c.Signal().
+func CondSignal(c *sync.Cond) {
+	condWake(c, false)
+	c.Signal()
+}
+
+// CondBroadcast replaces c.Broadcast().
+func CondBroadcast(c *sync.Cond) {
+	condWake(c, true)
+	c.Broadcast()
 }
 
 // ---------------------------------------------------------------------------
